@@ -75,7 +75,7 @@ fn strict(node: &Node) -> bool {
 
 fn check_type<T: ProgTy>(tname: &str, ctx: &Ctx, shard: usize, nshards: usize, tindex: u64) -> Acc
 where
-    T::F: ProgTy,
+    T::F: ProgTy + DualNum<T::F>,
 {
     let mut acc = Acc::new();
     let ncases = ctx.n(200, 400000);
@@ -188,6 +188,42 @@ where
             let x0f: f64 = (*x0).into();
             if sg_a[0].to_bits() != sg_b[0].to_bits() || ab_a.to_bits() != ab_b.to_bits() || ab_a != x0f.abs() || (x0f != 0.0 && sg_a[0] != x0f.signum()) || sg_a[1..].iter().any(|v| *v != 0.0) {
                 acc.violate(format!("signum/abs:{}", tname), format!("signum/abs on {} at {:e}: signum {:?}/{:?}, abs {:e}/{:e}", tname, x0f, sg_a, sg_b, ab_a, ab_b), case());
+            }
+        }
+        // real parts of the elementary functions at the ends of their domains and far out (where the
+        // derivative parts may well be huge, infinite or NaN): still the float function's value
+        if ci % 2 == 1 {
+            use ndv_core::funcs::{apply, c01_funcs};
+            use ndv_core::Func;
+            let funcs = c01_funcs();
+            let f = funcs[(ci / 2) as usize % funcs.len()];
+            let kmax = if T::IS_F32 { 20 } else { 50 };
+            let k = 2 + rng.below(kmax) as i32;
+            let e = (2.0f64).powi(-k);
+            let big = (2.0f64).powi(if T::IS_F32 { k.min(60) } else { k * 8 });
+            let x0 = match f {
+                Func::Asin | Func::Acos | Func::Atanh => rng.sign() * (1.0 - e),
+                Func::Acosh => 1.0 + e,
+                Func::Ln | Func::Log2 | Func::Log10 | Func::Log(_) | Func::Sqrt => if rng.bool() { e * e } else { big },
+                Func::Ln1p => if rng.bool() { -1.0 + e } else { big },
+                Func::Recip | Func::Cbrt | Func::Atan | Func::Asinh => rng.sign() * if rng.bool() { e * e } else { big },
+                Func::Exp | Func::ExpM1 | Func::Sinh | Func::Cosh | Func::Tanh => rng.sign() * rng.range(0.0, if T::IS_F32 { 80.0 } else { 700.0 }),
+                Func::Exp2 => rng.sign() * rng.range(0.0, if T::IS_F32 { 120.0 } else { 1000.0 }),
+                _ => rng.sign() * if rng.bool() { e } else { rng.range(1.0, 1e4) },
+            };
+            let x0 = if T::IS_F32 { x0 as f32 as f64 } else { x0 };
+            let mut sl = perturbed(&mut rng, &b, 1.0, T::IS_F32);
+            sl[0] = x0;
+            let xd: T = build_with(&shape, &sl, &mut MaskAbsent::new(rng.next_u64()));
+            let xf0: T::F = f_of::<T>(x0);
+            if let (Ok(yd), Ok(yf)) = (guarded(|| apply::<T, T::F>(f, &xd)), guarded(|| apply::<T::F, T::F>(f, &xf0))) {
+                let g = parts(&yd, &shape)[0];
+                let w: f64 = yf.into();
+                acc.observe(&format!("real-part-at-domain-edge|{}|{}", f.short(), tname), true);
+                let d = if g.is_nan() && w.is_nan() { 0 } else { ulps(g, w, T::IS_F32) };
+                if d > 2 {
+                    acc.violate(format!("real-part-edge:{}:{}", f.short(), tname), format!("{} on {} at real part {:e}: real part {:e}, the float function gives {:e} ({} ulp apart)", f.name(), tname, x0, g, w, d), json!({"type": tname, "func": f.name(), "x0": x0}));
+                }
             }
         }
         // the predicates at special real parts (signed zeros, infinities, NaN of either sign): the
@@ -318,6 +354,27 @@ where
             );
             if g != w {
                 acc.violate(format!("approx:{}", tname), format!("abs_diff_eq/relative_eq/ulps_eq/defaults on {} with real parts {:e}, {:e}, epsilon {:e}, max_relative {:e}: {:?} but floats give {:?}", tname, p0, q0, e1, e2, g, w), json!({"type": tname, "a_re": p0, "b_re": q0, "epsilon": e1, "max_relative": e2}));
+            }
+        }
+        // abs_diff_eq / relative_eq at the values where |a - b| <= eps is decided by IEEE special cases:
+        // equal infinities (inf - inf is NaN), NaN operands, negative and NaN tolerances
+        {
+            let vals = [f64::INFINITY, f64::NEG_INFINITY, f64::NAN, 1.0, 0.0, -0.0];
+            let tols = [1e-3, 0.0, -1.0, f64::NAN, f64::INFINITY];
+            let (a0, b0, t0) = (*rng.choose(&vals), *rng.choose(&vals), *rng.choose(&tols));
+            let mut sa = perturbed(&mut rng, &b, 1.0, T::IS_F32);
+            let mut sb = perturbed(&mut rng, &b, 1.0, T::IS_F32);
+            let mut st = perturbed(&mut rng, &b, 1.0, T::IS_F32);
+            sa[0] = a0;
+            sb[0] = b0;
+            st[0] = t0;
+            let (pa, qa, td): (T, T, T) = (build_all(&shape, &sa), build_all(&shape, &sb), build_all(&shape, &st));
+            let (pf, qf, tf): (T::F, T::F, T::F) = (f_of::<T>(a0), f_of::<T>(b0), f_of::<T>(t0));
+            acc.observe(&format!("approx-special|{}", tname), true);
+            let g = (pa.abs_diff_eq(&qa, td.clone()), pa.abs_diff_ne(&qa, td.clone()), pa.relative_eq(&qa, td.clone(), td.clone()));
+            let w = (pf.abs_diff_eq(&qf, tf), pf.abs_diff_ne(&qf, tf), pf.relative_eq(&qf, tf, tf));
+            if g != w {
+                acc.violate(format!("approx-special:{}", tname), format!("abs_diff_eq / abs_diff_ne / relative_eq on {} with real parts {:?}, {:?} and tolerance {:?}: {:?} but floats give {:?}", tname, a0, b0, t0, g, w), json!({"type": tname, "a": format!("{:?}", a0), "b": format!("{:?}", b0), "tol": format!("{:?}", t0)}));
             }
         }
         // ulps_eq: operands k units in the last place apart, explicit max_ulps, an epsilon too small
